@@ -127,6 +127,7 @@ func cmdCheck(args []string) int {
 			*timeout = int(float64(*timeout)*f + 0.5)
 		}
 	}
+	replayRepo = *repo
 	specs, err := LoadSpecs(*repo)
 	if err != nil {
 		fmt.Println("spec error:", err)
@@ -490,6 +491,53 @@ func cmdCheck(args []string) int {
 		}
 		if !found {
 			boundedInfo = append(boundedInfo, map[string]interface{}{"assumed_contract": tk, "label": "trusted, no bounded stand-in"})
+		}
+	}
+	// bounded clauses: clauses of this property on functions under contract that are decided by bounded execution
+	for _, b := range reg.Bounded {
+		if b.Clause == "" {
+			continue
+		}
+		serves := *prop == ""
+		for _, p := range b.Properties {
+			if p == *prop {
+				serves = true
+			}
+		}
+		inRun := false
+		for _, fn := range fnNames {
+			if fn == b.Function {
+				inRun = true
+			}
+		}
+		if !serves || !inRun {
+			continue
+		}
+		oname := b.Function + "#bounded@" + b.Clause
+		if ct := specs.Contracts[b.Function]; ct != nil {
+			oname = pkgShort(ct.Pkg) + "." + ct.shortName() + "#bounded@" + b.Clause
+		}
+		ok, out := runGoReplay(*verifDir, b.Pkg, b.File, b.Run)
+		info := map[string]interface{}{"clause": oname, "bound": b.Bound, "test": b.File, "passed": ok, "label": "bounded (not counted as proved)"}
+		for _, l := range strings.Split(out, "\n") {
+			if strings.Contains(l, "BOUNDED-CHECK") {
+				info["result"] = strings.TrimSpace(l)
+			}
+		}
+		boundedInfo = append(boundedInfo, info)
+		if !ok {
+			if kf, isKnown := matchKnown(oname, nil, ""); isKnown {
+				if !printedKnown[kf.Text] {
+					printedKnown[kf.Text] = true
+					fmt.Printf("KNOWN-FINDING: %s\n", kf.Text)
+				}
+				continue
+			}
+			exit = 1
+			os.MkdirAll(replayDir, 0o755)
+			rp := filepath.Join(replayDir, "bounded_"+mangle(oname)+".log")
+			os.WriteFile(rp, []byte(out), 0o644)
+			violations = append(violations, fmt.Sprintf("VIOLATION property=%s replay=%s obligation=%s status=refuted-by-bounded-execution replayed-on-real-code=%s", *prop, rp, oname, b.File))
 		}
 	}
 	for _, l := range violations {
